@@ -175,7 +175,18 @@ def run(ctx):
     ok = ctx.regen(["GenBatch"])
     built = ctx.build_props() and ok
     if built:
-        ctx.refuted += ["C06_cylseg_J_refuted", "C06_cylseg_M_refuted", "C06_cel_switch_refuted", "C06_cel_iterv_refuted"]
+        ctx.refuted += ["C06_cel_switch_refuted", "C06_cel_iterv_refuted"]
+        # C06_cylseg_J/M_refuted and C06_cylseg_JM are both conditional on the translated flags: say which is live
+        import os
+        import re
+        from harness.common import COQ
+        gen = open(os.path.join(COQ, "Gen", "GenBatch.v")).read()
+        flags = dict(re.findall(r"Definition (cylseg_\w+) : bool := (true|false)\.", gen))
+        for f in "JM":
+            rowwise = flags.get(f"cylseg_exit_before_{f}") == "false" or flags.get(f"cylseg_{f}_zero_on_surface") == "true"
+            ctx.extra.setdefault("cylseg_JM_live_theorem", {})[f] = "C06_cylseg_JM (row-wise)" if rowwise else f"C06_cylseg_{f}_refuted"
+            if not rowwise:
+                ctx.refuted.append(f"C06_cylseg_{f}_refuted")
         ctx.partial += ["C06_cel_switch_partial", "C06_cel_iterv_partial"]
     if ctx.tier == "thorough" and built:
         ctx.coqchk("MV.Props.C06")
